@@ -687,8 +687,12 @@ fn signature_for(c: &CaseSpec, path: &str, e: &Entry, pre_existing: bool) -> &'s
             } else if path.starts_with("volatile/") {
                 "C19 immutable archive entry outside immutable/ kept (volatile/)"
             } else if !path.contains('/') {
-                if path == "clean" || path == "protocolMagicId" {
+                if path == "protocolMagicId" && magic_id(&c.network).is_none() {
+                    // the client writes no protocolMagicId for a network it does not know
                     "C19 immutable archive entry shadowing a bootstrap marker kept"
+                } else if path == "clean" || path == "protocolMagicId" {
+                    // markers the client writes itself at the end of the download
+                    "C19 bootstrap marker written by the client holds an immutable archive entry's content"
                 } else {
                     "C19 immutable archive entry outside immutable/ kept (top-level file)"
                 }
